@@ -27,8 +27,9 @@
    ENUMERATION (`trees`); that the enumeration terminates within a computable fuel for grammars
    without cyclic unit/nullable derivations is not proved (the correspondence run would show an
    out-of-fuel answer as a disagreement).  The extra hypothesis `defined g cstart = true` of the
-   completeness theorems (the parser object was built for a nonterminal of the grammar) is not
-   needed by the code; it keeps the unreachable rule `<> ::= cstart` well-formed. *)
+   completeness theorems (the parser object was built for a nonterminal of the grammar) keeps the
+   rule `<> ::= cstart` well-formed; that rule is unreachable, so the hypothesis is presumably
+   removable by a reachability argument (not done). *)
 From ISLA Require Import Grammar GrammarFacts Earley EarleyFacts EarleyPrune EarleyTop EarleyTrees
   EarleyComplete EarleyForest EarleyFuel EarleyWrap.
 
